@@ -167,6 +167,10 @@ def evaluate(cs, rep, tier):
     for c, i, m in zip(cs, impl, model):
         k, nb = c.args[0], c.args[5]
         ti, tm = i.split(), m.split()
+        if tm[0] == "1" and ti[0] != "1":
+            # the model answers (None / Some after every batch) and the implementation panics on the same history
+            counter.append({"input": c.impl_line()[:800], "expected": "an answer after every batch: " + " ".join(tm[1 : 1 + nb]), "observed": "the implementation panics: " + i[:60], "oracle": "the decoder never gives up on a received set by panicking (the model, proved panic-free, answers)"})
+            continue
         if ti[0] != "1" or tm[0] != "1":
             continue
         fi, fm = ti[1 : 1 + nb], tm[1 : 1 + nb]
